@@ -176,7 +176,7 @@ def run(ctx):
     for i, (doc, (ns, vs, r0, rs)) in enumerate(zip(docs, per)):
         if len(terms) >= ncoq:
             break
-        if doc.get('ignore') or doc.get('file') or 'snap' not in r0 or (doc.get('desc') or {}).get('repair_paths'):
+        if doc.get('ignore') or doc.get('file') or 'snap' not in r0:
             continue
         k = len(terms) % len(vs)
         if 'snap' not in rs[k]:
